@@ -435,3 +435,96 @@ func RunFullScan(w *World, r *Report, fns []*ssa.Function) {
 		}
 	}
 }
+
+// RunCodeSpace: (cmap.Table).Get hands out subtables keyed by character: for
+// a Macintosh subtable (platform 1) it translates the Mac Roman codes of the
+// file to unicode. A function that stores the re-encoded subtable under the
+// key it was read with therefore has to translate the characters back to
+// codes for that platform; otherwise the translation is applied a second time
+// when the subset is read, and every non-ASCII character of the Macintosh
+// subtable changes its meaning.
+func RunCodeSpace(w *World, r *Report) {
+	r.Rule("codespace: where a function decodes a cmap subtable with (cmap.Table).Get(key) — which translates Macintosh codes to unicode — and stores an encoded subtable into a cmap.Table under that same key, a call into package mac that is control-dependent on a test of the key's PlatformID translates the characters back to codes before the subtable is encoded")
+	fn := w.Func("(*sfnt.Font).Subset")
+	if fn == nil {
+		r.Fatal("anchor (*sfnt.Font).Subset does not resolve")
+		return
+	}
+	isCmapTable := func(t types.Type) bool {
+		n, ok := t.(*types.Named)
+		return ok && n.Obj().Pkg() != nil && n.Obj().Pkg().Path() == modPath+"/cmap" && n.Obj().Name() == "Table"
+	}
+	var gets []*ssa.Call
+	var upds []*ssa.MapUpdate
+	for _, b := range fn.Blocks {
+		for _, in := range b.Instrs {
+			switch x := in.(type) {
+			case *ssa.Call:
+				if c := x.Common().StaticCallee(); c != nil && fnName(c) == "(cmap.Table).Get" {
+					gets = append(gets, x)
+				}
+			case *ssa.MapUpdate:
+				if isCmapTable(x.Map.Type()) {
+					upds = append(upds, x)
+				}
+			}
+		}
+	}
+	cc := controlConds(fn)
+	n := 0
+	for _, g := range gets {
+		key := g.Common().Args[1]
+		for _, u := range upds {
+			if !sameLoaded(u.Key, key) {
+				continue
+			}
+			n++
+			k := r.MkKey("codespace", fnName(fn), "subtable stored under the key it was read with")
+			ok := false
+			for _, b := range fn.Blocks {
+				for _, in := range b.Instrs {
+					call, isCall := in.(*ssa.Call)
+					if !isCall {
+						continue
+					}
+					c := call.Common().StaticCallee()
+					if c == nil || c.Pkg == nil || c.Pkg.Pkg.Path() != modPath+"/mac" {
+						continue
+					}
+					for _, cond := range cc[b] {
+						for v := range backSlice(cond) {
+							switch f := v.(type) {
+							case *ssa.Field:
+								if fieldNameOfField(f) == "PlatformID" && f.X == key {
+									ok = true
+								}
+							case *ssa.FieldAddr:
+								if fieldName(f) == "PlatformID" {
+									ok = true
+								}
+							}
+						}
+					}
+				}
+			}
+			if ok {
+				r.OK("codespace", k, w.Pos(u.Pos()), "Macintosh subtables are translated back to codes first")
+			} else {
+				r.Fail("codespace", k, w.Pos(u.Pos()), "the subtable decoded by Get (unicode keys, Macintosh codes translated) is encoded and stored under the same key without translating the characters of a platform 1 subtable back to Mac Roman codes: on reading the subset the translation is applied a second time and non-ASCII characters map to other glyphs or to none", nil)
+			}
+		}
+	}
+	if n == 0 {
+		r.Fail("codespace", r.MkKey("codespace", fnName(fn), "subtable stored under the key it was read with"), w.Pos(fn.Pos()), "no cmap subtable that is read with Get and stored under the same key was found in Font.Subset", nil)
+	}
+}
+
+// sameLoaded: the same value, or two loads of the same local variable.
+func sameLoaded(a, b ssa.Value) bool {
+	if a == b {
+		return true
+	}
+	la, ok1 := a.(*ssa.UnOp)
+	lb, ok2 := b.(*ssa.UnOp)
+	return ok1 && ok2 && la.Op == token.MUL && lb.Op == token.MUL && la.X == lb.X
+}
